@@ -109,7 +109,7 @@ def model (arg : String) : String :=
     match convertSong r.song r.data r.volume with
     | .error (.writer e) => werrMsg e
     | .error (.codec .atEmpty) => "exc:out_of_range"
-    | .error (.codec .stackEmpty) => "UB:stack-top-on-empty"
+    | .error (.codec .stackEmpty) => "err:loopCmd"
     | .error .macroUnmodelled =>
       -- the first-layer model stops at macro tracks; the constructor model (C09's, over which the whole-song
       -- theorems are stated) has them
